@@ -1,4 +1,6 @@
 """C12 - assemble/clear/backport/delete/write round-trips preserve the model."""
+import itertools
+
 import numpy as np
 
 import classy_blocks as cb
@@ -230,9 +232,10 @@ def run(sx, n, steps, restrict=None, all_vertices=False, symbolic_placement=True
             mesh.delete(ops[j])
             M.deleted.add(j)
         elif act == "modify_patch":
-            which = sx.choice(f"mod{step}", 2)
-            args = [("lid", "wall", None), ("front0", "cyclic", ["neighbourPatch x"])][which]
-            if which == 1 and 0 in M.deleted:
+            which = sx.choice(f"mod{step}", 4)
+            args = [("lid", "wall", None), ("front0", "cyclic", ["neighbourPatch x"]),
+                    ("lid", "cyclic", ["neighbourPatch y", "transform none"]), ("front0", "wall", None)][which]
+            if args[0] == "front0" and 0 in M.deleted:
                 return "skip:modify-patch-without-faces"     # outside the claim (phantom empty patch)
             mesh.modify_patch(*args)
             kind, settings = args[1], args[2]
@@ -258,11 +261,11 @@ def _cls(history):
 def jobs(tier, seed):
     js = []
     steps = 2 if tier == "quick" else 3
-    for first in ACTIONS:
-        # the first action is fixed per job (parallelism); the rest is chosen by the solver
+    for first in itertools.product(ACTIONS, ACTIONS):
+        # the first two actions are fixed per job (parallelism); the rest is chosen by the solver
         for bundle in (False, True):
-            js.append({"name": f"2boxes|first={first}|steps={steps}|one-entity={bundle}", "fn": "run_first",
-                       "params": {"n": 2 if not bundle else 3, "steps": steps, "first": first, "all_vertices": tier == "thorough",
+            js.append({"name": f"2boxes|first={'>'.join(first)}|steps={steps}|one-entity={bundle}", "fn": "run_first",
+                       "params": {"n": 2 if not bundle else 3, "steps": steps, "first": list(first), "all_vertices": tier == "thorough",
                                   "symbolic_placement": tier == "thorough", "bundle": bundle},
                        "budget_s": 280 if tier == "quick" else 1500, "max_paths": 4000 if tier == "quick" else 40000})
     if tier == "quick":
@@ -282,10 +285,11 @@ def _run_with_first(sx, n, steps, first, all_vertices=False, symbolic_placement=
     orig_choice = sx.choice
     state = {"used": False}
 
+    forced = {f"act{i}": a for i, a in enumerate(first if isinstance(first, (list, tuple)) else [first])}
+
     def choice(name, k):
-        if name == "act0" and not state["used"]:
-            state["used"] = True
-            return ACTIONS.index(first)
+        if name in forced:
+            return ACTIONS.index(forced[name])
         return orig_choice(name, k)
     sx.choice = choice
     try:
